@@ -420,7 +420,12 @@ func (pr *progRender) render() string {
 							pargs = append(pargs, fmt.Sprintf("%s(a%d)", tg, k))
 						}
 						body := []string{fmt.Sprintf("return env.Pred(%d, %s%s)", ts.Pred.Unit, ctxArg(ts.Pred.Ctx), prefixComma(pargs))}
-						pe := pr.fnExpr(ts.Pred.Sp, ts.Pred.Unit, sig(n, ts.Pred.Ctx, pins, []string{"bool"}, false), body, "", nil)
+						pret := "bool"
+						if ts.Pred.NamedBool {
+							pret = "PB"
+							body = []string{fmt.Sprintf("return PB(env.Pred(%d, %s%s))", ts.Pred.Unit, ctxArg(ts.Pred.Ctx), prefixComma(pargs))}
+						}
+						pe := pr.fnExpr(ts.Pred.Sp, ts.Pred.Unit, sig(n, ts.Pred.Ctx, pins, []string{pret}, false), body, "", nil)
 						return n.cff + ".Predicate(" + pr.wrap(pe) + ")"
 					})
 				}
@@ -949,6 +954,7 @@ func SupportSource() string {
 	x.f("func tag_int(v int) uint64 { return uint64(v) }")
 	x.f("func mk_string(t uint64) string {\n\tif t == 0 {\n\t\treturn \"\"\n\t}\n\treturn strconv.FormatUint(t, 10)\n}")
 	x.f("func tag_string(v string) uint64 {\n\tif v == \"\" {\n\t\treturn 0\n\t}\n\tn, _ := strconv.ParseUint(v, 10, 64)\n\treturn n\n}")
+	x.f("// PB is a declared boolean type (predicate results).\ntype PB bool")
 	x.f("// MK is a comparable struct used as a map key.\ntype MK struct {\n\tA int\n\tB string\n}")
 	for _, e := range collElemTypes {
 		sfx, typ := e.Suffix(), e.Go()
